@@ -552,6 +552,18 @@ impl<'a> VisitMut for Rewriter<'a> {
                     }
                 }
             }
+            // `ctx.spawn(async move { B })` (kameo's delegated reply) -> `{ B }` likewise
+            if let Expr::MethodCall(mc) = e {
+                if mc.method == "spawn" && mc.args.len() == 1 {
+                    if let Some(Expr::Async(a)) = mc.args.first() {
+                        let blk = a.block.clone();
+                        *e = Expr::Block(ExprBlock { attrs: vec![], label: None, block: blk });
+                        self.bump("R4");
+                        self.visit_expr_mut(e);
+                        return;
+                    }
+                }
+            }
             if let Expr::Await(a) = e {
                 let inner = (*a.base).clone();
                 *e = inner;
@@ -871,6 +883,8 @@ struct PathSpec {
     mods: Vec<String>,
     kind: String,
     trait_: Option<String>,
+    /// compact text of the trait's generic arguments (`impl Message<GetStreamVersion> for X` -> `<GetStreamVersion>`), if given
+    trait_args: Option<String>,
     name: String,
     method: Option<String>,
 }
@@ -888,9 +902,13 @@ fn parse_path(p: &str) -> std::result::Result<PathSpec, String> {
     let (kind, tail) = rest.split_once(' ').ok_or_else(|| format!("bad item path `{}`", p))?;
     let tail = tail.trim();
     if kind == "impl" {
+        let mut trait_args: Option<String> = None;
         let (trait_, tyrest) = match tail.split_once(" for ") {
             Some((t, r)) => {
                 let t = t.trim();
+                if let Some(i) = t.find('<') {
+                    trait_args = Some(compact(&t[i..]));
+                }
                 let t = t.split('<').next().unwrap().trim();
                 (Some(t.rsplit("::").next().unwrap().to_string()), r.trim())
             }
@@ -900,9 +918,9 @@ fn parse_path(p: &str) -> std::result::Result<PathSpec, String> {
             Some((n, m)) => (n.to_string(), Some(m.to_string())),
             None => (tyrest.to_string(), None),
         };
-        Ok(PathSpec { mods, kind: kind.into(), trait_, name, method })
+        Ok(PathSpec { mods, kind: kind.into(), trait_, trait_args, name, method })
     } else {
-        Ok(PathSpec { mods, kind: kind.into(), trait_: None, name: tail.to_string(), method: None })
+        Ok(PathSpec { mods, kind: kind.into(), trait_: None, trait_args: None, name: tail.to_string(), method: None })
     }
 }
 
@@ -949,6 +967,12 @@ fn find_items<'a>(items: &'a [Item], ps: &PathSpec, depth: usize) -> Vec<Item> {
                 let tn = im.trait_.as_ref().map(|(_, p, _)| p.segments.last().unwrap().ident.to_string());
                 if tn != ps.trait_ {
                     continue;
+                }
+                if let (Some(want), Some((_, p, _))) = (&ps.trait_args, im.trait_.as_ref()) {
+                    let have = compact_tokens(&p.segments.last().unwrap().arguments);
+                    if &have != want {
+                        continue;
+                    }
                 }
                 match &ps.method {
                     None => out.push(it.clone()),
